@@ -18,6 +18,9 @@ let int_of_z = function Z0 -> 0 | Zpos p -> int_of_pos p | Zneg p -> - (int_of_p
 let n_of_int n = if n <= 0 then N0 else Npos (pos_of_int n)
 let int_of_n = function N0 -> 0 | Npos p -> int_of_pos p
 let b2i b = if b then 1 else 0
+let z_of_halves hi lo = Z.add (Z.mul (z_of_int hi) (z_of_int 4294967296)) (z_of_int lo)
+let halves_of_z z =
+  let (q, r) = Z.div_eucl z (z_of_int 4294967296) in [int_of_z q; int_of_z r]
 
 (* token stream helpers *)
 exception Bad_case of string
@@ -244,10 +247,136 @@ let op_styleconst args =
     put_text l @ put_text lb @ put_text (quote_block c t) @ put_text (header c t (nat_of_int lvl)) @ put_text (bullet t) @ put_text (code_block c t)
   | _ -> panic_marker
 
+(* ---------------- C10: collection paging ---------------- *)
+(* pages: kind, itemsMode, items, next ; the model sees: items (empty unless itemsMode is 1 or 2), next *)
+let take_chain l =
+  let (n, r) = take1 l in
+  let rec go i n r = if n = 0 then ([], r) else
+      let (_kind, r) = take1 r in let (mode, r) = take1 r in let (items, r) = take_list r in let (nx, r) = take1 r in
+      let items = if mode = 1 || mode = 2 then items else [] in
+      let (ps, r) = go (i + 1) (n - 1) r in ((items, nx) :: ps, r) in
+  go 0 n r
+let op_harvest args =
+  let (pages, r) = take_chain args in
+  let (start, r) = take1 r in
+  let (amounts, _) = take_list r in
+  let arr = Array.of_list pages in
+  let np = Array.length arr in
+  let mkpage i = let (items, nx) = arr.(i) in
+    { p_items = items; p_next = (match nx with 1 when i + 1 < np -> NRef (i + 1) | 2 -> NRef (-1 - i) | _ -> NAbsent) } in
+  let load r = if r >= 0 && r < np then Some (mkpage r) else None in
+  if np = 0 then [ -7 ] else
+  let enc d = List.length d :: List.map (function DItem e -> e | DLoadFail _ -> -1 | DTooManyEmpty -> -2 | DOutOfFuel -> -3) d in
+  let rec go k amounts = match amounts, k with
+    | [], _ | _, None -> []
+    | a :: rest, Some (p, st) ->
+      let (d, k') = harvest load (harvest_fuel (nat_of_int a)) p (nat_of_int a) st O in
+      enc d @ (match k' with None -> [0; 0] | Some (_, s') -> [1; int_of_nat s']) @ go k' rest in
+  go (Some (mkpage 0, nat_of_int start)) amounts
+(* oracle: the implementation's deliveries are a prefix of the true sequence + at most one legitimate error *)
+let orc_harvest args impl =
+  let (pages, r) = take_chain args in
+  let (_start, r) = take1 r in
+  let (_amounts, _) = take_list r in
+  ignore pages; ignore r;
+  [("harvest_equals_model", op_harvest args = impl)]
+
+(* ---------------- C11: splicer ---------------- *)
+let op_splice args =
+  let (ns, r) = take1 args in
+  let rec srcs n r = if n = 0 then ([], r) else
+      let (cnt, r) = take1 r in
+      let rec items c r = if c = 0 then ([], r) else
+          let (tag, r) = take1 r in let (st, r) = take1 r in let (xs, r) = items (c - 1) r in ((tag, z_of_int st) :: xs, r) in
+      let (its, r) = items cnt r in let (ss, r) = srcs (n - 1) r in (its :: ss, r) in
+  let (sources, r) = srcs ns r in
+  let stamp (_, s) = s in
+  let rec firstn n l = if n = 0 then [] else match l with [] -> [] | x :: t -> x :: firstn (n - 1) t in
+  let rec skipn n l = if n = 0 then l else match l with [] -> [] | _ :: t -> skipn (n - 1) t in
+  let charvest c q b =
+    let q = int_of_nat q and b = int_of_nat b in
+    let n = List.length c in
+    if b >= n then (([], None), O)
+    else if b + q >= n then ((skipn b c, None), O)
+    else ((firstn q (skipn b c), Some c), nat_of_int (b + q)) in
+  let sp0 = List.mapi (fun i c -> { s_buf = []; s_page = (if c = [] && i mod 2 = 1 then None else Some c); s_base = O }) sources in
+  let (nr, r) = take1 r in
+  let positions = ref [| Some sp0 |] in
+  let out = ref [] in
+  let r = ref r in
+  for _ = 1 to nr do
+    let (pos, r1) = take1 !r in let (q, r2) = take1 r1 in let (start, r3) = take1 r2 in
+    r := r3;
+    let cur = if pos < Array.length !positions then !positions.(pos) else None in
+    (match cur with
+     | None -> out := !out @ [-5]; positions := Array.append !positions [| None |]
+     | Some sp ->
+       let (items, k) = sp_harvest stamp charvest sp (nat_of_int q) (nat_of_int start) in
+       out := !out @ (List.length items :: List.map fst items) @ [match k with None -> 0 | Some _ -> 1];
+       positions := Array.append !positions [| k |])
+  done;
+  !out
+
+(* ---------------- C19: configuration ---------------- *)
+let take_bytes = take_text
+let put_bytes = put_text
+let take_z l = let (sg, r) = take1 l in let (hi, r) = take1 r in let (lo, r) = take1 r in
+  let v = z_of_halves hi lo in ((if sg <> 0 then Z.opp v else v), r)
+let put_z z = let neg = (match z with Zneg _ -> true | _ -> false) in
+  b2i neg :: halves_of_z (Z.abs z)
+let rec take_tv l =
+  let (tag, r) = take1 l in
+  match tag with
+  | 0 -> let (z, r) = take_z r in (TInt z, r)
+  | 1 -> (TFloat, r) | 2 -> (TBool, r) | 3 -> (TDatetime, r)
+  | 4 -> let (b, r) = take_bytes r in (TStr b, r)
+  | 5 -> let (n, r) = take1 r in
+    let rec go n r = if n = 0 then ([], r) else let (v, r) = take_tv r in let (vs, r) = go (n - 1) r in (v :: vs, r) in
+    let (vs, r) = go n r in (TArr vs, r)
+  | 6 -> let (n, r) = take1 r in
+    let rec go n r = if n = 0 then ([], r) else
+        let (k, r) = take_bytes r in let (v, r) = take_tv r in let (kvs, r) = go (n - 1) r in ((k, v) :: kvs, r) in
+    let (kvs, r) = go n r in (TTable kvs, r)
+  | _ -> raise (Bad_case "tv")
+let take_opt_tv l = let (p, r) = take1 l in if p = 0 then (None, r) else let (v, r) = take_tv r in (Some v, r)
+let op_hex args = let (b, _) = take_bytes args in
+  match hex_to_ansi b with Some o -> 1 :: put_bytes o | None -> [0]
+let op_hexsweep args =
+  match args with
+  | [rr; upper] ->
+    let hexd v = let d = "0123456789abcdef" in
+      let c = d.[v] in n_of_int (Char.code (if upper <> 0 then Char.uppercase_ascii c else c)) in
+    let acc = ref 0 and sum = ref 0 in
+    let dec l = List.fold_left (fun a c -> 10 * a + (int_of_n c - 48)) 0 l in
+    for g = 0 to 255 do for b = 0 to 255 do
+        let s = [n_of_int 35; hexd (rr / 16); hexd (rr mod 16); hexd (g / 16); hexd (g mod 16); hexd (b / 16); hexd (b mod 16)] in
+        match hex_to_ansi s with
+        | None -> ()
+        | Some o ->
+          incr acc;
+          let rec split cur l = match l with
+            | [] -> [List.rev cur]
+            | c :: r -> if int_of_n c = 59 then List.rev cur :: split [] r else split (c :: cur) r in
+          (match split [] o with
+           | [x; y; z] -> sum := (!sum * 31 + dec x * 65536 + dec y * 256 + dec z) mod 1000000007
+           | _ -> sum := -1)
+      done done;
+    [!acc; !sum]
+  | _ -> raise (Bad_case "hexsweep")
+let put_config c =
+  [1; List.length c.hook] @ List.concat_map put_bytes c.hook @ put_bytes c.primary @ put_bytes c.error
+  @ put_bytes c.highlight @ put_bytes c.code0 @ put_z c.context @ put_z c.timeout_ns @ put_z c.cache_size
+let op_cfg args =
+  let (_text, r) = take_bytes args in
+  let (hook, r) = take_opt_tv r in let (pr, r) = take_opt_tv r in let (er, r) = take_opt_tv r in
+  let (hi, r) = take_opt_tv r in let (co, r) = take_opt_tv r in let (ctx, r) = take_opt_tv r in
+  let (tmo, r) = take_opt_tv r in let (cs, r) = take_opt_tv r in
+  let (feeds_ok, r) = take1 r in let (unknown, _) = take1 r in
+  let raw = { r_hook = hook; r_primary = pr; r_error = er; r_highlight = hi; r_code = co; r_context = ctx;
+              r_timeout = tmo; r_cache = cs; r_feeds_ok = (feeds_ok <> 0); r_unknown = (unknown <> 0) } in
+  match accept raw with Some c -> put_config c | None -> [0]
+
 (* ---------------- C17: object accessors ---------------- *)
-let z_of_halves hi lo = Z.add (Z.mul (z_of_int hi) (z_of_int 4294967296)) (z_of_int lo)
-let halves_of_z z =
-  let (q, r) = Z.div_eucl z (z_of_int 4294967296) in [int_of_z q; int_of_z r]
 let rec take_jv l =
   let (tag, r) = take1 l in
   match tag with
@@ -319,6 +448,12 @@ let () =
   reg "squash" op_squash no_oracle;
   reg "height" op_height no_oracle;
   reg "unitable" op_unitable no_oracle;
+  reg "hex" op_hex (orc_equal op_hex);
+  reg "hexsweep" op_hexsweep (orc_equal op_hexsweep);
+  reg "cfg" op_cfg (orc_equal op_cfg);
+  reg "cfgself" op_cfg (orc_equal op_cfg);
+  reg "harvest" op_harvest orc_harvest;
+  reg "splice" op_splice (orc_equal op_splice);
   reg "stylepipe" op_stylepipe orc_stylepipe;
   reg "styleconst" op_styleconst (orc_equal op_styleconst);
   regl "acc" op_acc (fun a l i -> [("acc_equals_spec", op_acc a l = i)])
